@@ -54,7 +54,8 @@ Section R.
   Notation sample_line := (om_sample_line legacy guard_fix fix_nhkeys fix_nhsfx fix_tsmix fix_isnan fix_quote fix_tsexp fix_sname
                       NUM parse_num parse_float parse_int num_lt num_eqb num_isinf num_integral num_huge
                       num_zero num_one num_inf ts_float is_word is_space_re is_digit_re).
-  Notation enter_family := (om_enter_family legacy guard_fix NUM parse_float num_lt num_eqb num_zero num_inf).
+  Notation enter_family := (om_enter_family legacy guard_fix fix_sname NUM parse_float num_lt num_eqb num_zero num_inf).
+  Notation implicit_name := (om_implicit_name guard_fix fix_sname NUM).
   Notation group_step := (om_group_step fix_tsmix NUM num_lt num_eqb ts_float).
   Notation read_sample := (om_read_sample legacy guard_fix fix_nhkeys fix_nhsfx fix_quote fix_tsexp fix_sname NUM parse_num parse_float
                              parse_int num_eqb num_isinf is_word is_space_re is_digit_re).
@@ -198,13 +199,12 @@ Section R.
                              st_samples st' = [] /\ st_group st' = None /\ st_typ st' = Some OM_unknown /\
                              st_allowed st' = [os_name s] /\
                              b = false /\ mem_str (os_name s) (st_allowed st) = false /\
-                             exists q, unquote_unescape_with guard_fix (os_name s) = Ok (cand, q))
+                             implicit_name s = Ok cand)
     \/ (st' = st /\ out = []).
   Proof.
     unfold om_enter_family. intro H.
     destruct (negb (mem_str (os_name s) (st_allowed st)) && negb b) eqn:C.
-    - apply bind_ok in H as ([fams seen'] & Hf & H). apply bind_ok in H as ([cand q] & Hu & H).
-      destruct (negb q && negb (is_valid_legacy_metric_name cand)); [discriminate|].
+    - apply bind_ok in H as ([fams seen'] & Hf & H). apply bind_ok in H as (cand & Hu & H).
       inversion H; subst st' out; clear H. left. exists fams, seen', cand. cbn.
       apply andb_true_iff in C as [C1 C2]. apply negb_true_iff in C1, C2. repeat split; eauto.
     - inversion H; subst. right. auto.
@@ -641,9 +641,9 @@ Section R.
   Qed.
 
   (* a sample whose name the family in progress does not allow closes it and opens an unknown family *)
-  Lemma sample_line_opens st line s x q st' out :
+  Lemma sample_line_opens st line s x st' out :
     read_sample (st_typ st) line = Ok (s, false) -> mem_str (os_name s) (st_allowed st) = false ->
-    unquote_unescape_with guard_fix (os_name s) = Ok (x, q) ->
+    implicit_name s = Ok x ->
     sample_line st line = Ok (st', out) ->
     exists seen', flush st = Ok (out, seen') /\ st_name st' = Some x /\ st_seen st' = seen' /\
                   st_typ st' = Some OM_unknown.
@@ -652,7 +652,6 @@ Section R.
     unfold om_enter_family in H. rewrite Hm in H. cbn [negb andb] in H.
     apply bind_ok in H as ([st1 out1] & He & H).
     apply bind_ok in He as ([fams seen'] & Hf & He). rewrite Hu in He. cbn [bind] in He.
-    destruct (negb q && negb (is_valid_legacy_metric_name x)); [discriminate|].
     inversion He; subst st1 out1; clear He. cbn [st_name om_new_family] in H.
     apply bind_ok in H as ([] & _ & H). apply bind_ok in H as (st2 & Hg & H).
     apply bind_ok in H as ([] & _ & H). inversion H; subst st2 out; clear H.
@@ -698,11 +697,11 @@ Section R.
 
   (* the same for a sample line that is not allowed in the family in progress: it opens an unknown family under
      its own name, which an earlier family (possibly the one it just closed) owns *)
-  Lemma family_clash_sample_document a mid l b s1 acc1 s2 acc2 n s x q :
+  Lemma family_clash_sample_document a mid l b s1 acc1 s2 acc2 n s x :
     prefix st0 a [] = Ok (s1, acc1) -> st_name s1 = Some n -> In x (fam_names n (st_typ s1)) ->
     prefix s1 mid acc1 = Ok (s2, acc2) ->
     is_sample_line l = true -> read_sample (st_typ s2) l = Ok (s, false) ->
-    mem_str (os_name s) (st_allowed s2) = false -> unquote_unescape_with guard_fix (os_name s) = Ok (x, q) ->
+    mem_str (os_name s) (st_allowed s2) = false -> implicit_name s = Ok x ->
     is_err (run st0 (a ++ mid ++ l :: b) []).
   Proof.
     intros Ea Hn Hy Em Hsl Hr Hm Hu.
@@ -710,7 +709,7 @@ Section R.
     apply is_err_bind. intros [s3 out] E3. cbn.
     pose proof E3 as E0. apply step_ok_cases in E0 as (Eof & _).
     rewrite step_sample_line in E3 by assumption.
-    destruct (sample_line_opens s2 l s x q s3 out Hr Hm Hu E3) as (seen' & Hf & N3 & S3 & T3).
+    destruct (sample_line_opens s2 l s x s3 out Hr Hm Hu E3) as (seen' & Hf & N3 & S3 & T3).
     apply Clash_run. exists x, x. split; [exact N3|]. split; [apply fam_names_self|].
     rewrite S3. exact (opened_clash s1 acc1 mid s2 acc2 n x out seen' Hn Hy Em Hf).
   Qed.
@@ -1609,8 +1608,7 @@ Section R.
     unfold om_sample_line in H. rewrite Hr in H. cbn [bind] in H.
     unfold om_enter_family in H. rewrite Hm in H. cbn [negb andb] in H.
     apply bind_ok in H as ([st1 out1] & He & H).
-    apply bind_ok in He as ([fams seen'] & Hf & He). apply bind_ok in He as ([cand q] & _ & He).
-    destruct (negb q && negb (is_valid_legacy_metric_name cand)); [discriminate|].
+    apply bind_ok in He as ([fams seen'] & Hf & He). apply bind_ok in He as (cand & _ & He).
     inversion He; subst st1 out1; clear He. cbn [st_name om_new_family] in H.
     apply bind_ok in H as ([] & _ & H). apply bind_ok in H as (st2 & Hg & H).
     apply bind_ok in H as ([] & _ & H). inversion H; subst st2 out; clear H.
